@@ -555,6 +555,10 @@ impl<'a> Parser<'a> {
                     let mut json_access_parts = Vec::new();
 
                     loop {
+                        if json_access_parts.len() >= MAX_EXPRESSION_DEPTH {
+                            return Err(self.create_error(ParserErrorType::TooDeepExpression(MAX_EXPRESSION_DEPTH)));
+                        }
+
                         match self.current() {
                             Token::Operator(Operator::Single('.')) => {
                                 self.next()?;
@@ -704,7 +708,13 @@ impl<'a> Parser<'a> {
     fn parse_type(&mut self) -> ParserResult<ValueType> {
         let location = self.current_location();
         let mut type_value = self.consume_identifier()?;
+        let mut array_depth = 0;
         while self.current() == &Token::LeftSquareParentheses {
+            array_depth += 1;
+            if array_depth > MAX_EXPRESSION_DEPTH {
+                return Err(self.create_error(ParserErrorType::TooDeepExpression(MAX_EXPRESSION_DEPTH)));
+            }
+
             self.next()?;
             self.expect_and_consume_token(Token::RightSquareParentheses, ParserErrorType::ExpectedRightSquareParentheses)?;
             type_value += "[]";
